@@ -165,6 +165,23 @@ func loadProgram(repo, verif string, patterns []string) (*Program, error) {
 			return nil, err
 		}
 	}
+	// evaluate axioms once, here, so that a malformed axiom is a load error
+	var axErr error
+	func() {
+		defer func() {
+			if r := recover(); r != nil {
+				if ce, ok := r.(ContractError); ok {
+					axErr = ce
+					return
+				}
+				panic(r)
+			}
+		}()
+		p.axiomTerms()
+	}()
+	if axErr != nil {
+		return nil, axErr
+	}
 	return p, nil
 }
 
